@@ -924,6 +924,37 @@ class SBytes(object):
         key = tuple(a if isinstance(a, bytes) else (a[1] if isinstance(a, tuple) else a.key) for a in self.atoms)
         return SBytes([Blob(('subscript', key, repr(idx)), ln)])
 
+    def _strip(self, chars, left, right):
+        """bytes.lstrip / rstrip / strip with a concrete byte set, for values made of literal and single symbolic bytes:
+        one path per number of stripped bytes (assumed Python semantics: maximal prefix / suffix of bytes from the set)."""
+        if self.is_concrete():
+            c = self.concrete()
+            return SBytes.of(c.strip(chars) if left and right else (c.lstrip(chars) if left else c.rstrip(chars)))
+        terms = self.byte_terms()
+        if terms is None or not isinstance(chars, (bytes, bytearray)) or not chars:
+            raise Unsupported('bytes.strip family on %r with argument %r: no model' % (self, chars))
+        E = engine()
+
+        def in_set(t):
+            return z3.Or(*[t == z3.BitVecVal(c, 8) for c in bytes(chars)])
+        lo, hi = 0, len(terms)
+        if left:
+            while lo < hi and E.decide(in_set(terms[lo])):
+                lo += 1
+        if right:
+            while hi > lo and E.decide(in_set(terms[hi - 1])):
+                hi -= 1
+        return SBytes([('byte', t) for t in terms[lo:hi]])
+
+    def lstrip(self, chars=None):
+        return self._strip(chars, True, False)
+
+    def rstrip(self, chars=None):
+        return self._strip(chars, False, True)
+
+    def strip(self, chars=None):
+        return self._strip(chars, True, True)
+
     def decode(self, enc='utf-8', errors='strict'):
         if self.is_concrete():
             return self.concrete().decode(enc, errors)
